@@ -447,8 +447,26 @@ def branch_stats(c, out, st):
     return all(nontrivial)
 
 
+def generic_double_discards(c):
+    """How many sends of a generic script meet a buffer in which one element answers DiscardOld
+    and another DiscardNew (statistics only: shows that the generator reaches the case)."""
+    n, sel, pred, buf, hits = c["n"], c["sel"], c["pred"], [], 0
+    for o in c["ops"]:
+        if o[0] == "r":
+            buf = buf[1:]
+            continue
+        x = o[1]
+        if not pred[x]:
+            continue
+        rs = [sel[y * n + x] for y in buf]
+        if 1 in rs and 2 in rs:
+            hits += 1
+        buf = [y for y, r in zip(buf, rs) if r != 1] + ([] if 2 in rs else [x])
+    return hits
+
+
 def generate(rng, tier, scale=1):
-    nq, nsel, ngen, nconc, max_ops = (420, 40, 150, 40, 36) if tier == "quick" else (6000, 400, 2500, 500, 90)
+    nq, nsel, ngen, nconc, max_ops = (1500, 100, 400, 120, 36) if tier == "quick" else (12000, 600, 4000, 1000, 90)
     cases = corpus_cases()
     for _ in range(nq * scale):
         cases.append(gen_queue_case(rng, max_ops))
@@ -534,6 +552,13 @@ def run_queue_half(rep, rng, cov, broken):
             if c["t"] == "generic" and not any(cases[origin[s]]["t"] == "generic" for s in sample_ids):
                 sample_ids.append(k)
     sample_ids = [0] + sample_ids
+    dd = sum(generic_double_discards(c) for c in cases if c["t"] == "generic")
+    conc_with_drops = sum(1 for c, o in zip(cases, outs) if c["t"] == "conc" and o.get("dropped"))
+    stats["generic send: DiscardOld and DiscardNew in one pass"] = dd
+    stats["concurrent runs in which something was destroyed"] = conc_with_drops
+    never = [k for k, v in stats.items() if v == 0]
+    if never and not pred_fail:
+        raise common.MachineryError("generator never reached: " + ", ".join(never))
     mm, samp = common.run_model_cases("C16", PREAMBLE, "Model.Chan.run_case", coq_cases, shard_size=100, sample_ids=sample_ids)
     pred_fail += lin_fail
     first = None
@@ -630,7 +655,9 @@ def replay(path):
     else:
         term = coq_case(c)
     if term is not None and "panic" not in o:
-        common.coq_build(["theories/Model/Chan.vo"])
-        _, samp = common.run_model_cases("C16replay", PREAMBLE, "Model.Chan.run_case", [(0, term, "(OL [])")], sample_ids=[0])
-        print("model:", json.dumps(samp.get(0)))
+        try:  # needs coq/theories/Model/Chan.vo (built by any earlier ./check C16)
+            _, samp = common.run_model_cases("C16replay", PREAMBLE, "Model.Chan.run_case", [(0, term, "(OL [])")], sample_ids=[0])
+            print("model:", json.dumps(samp.get(0)))
+        except RuntimeError as e:
+            print("model: not evaluated (run ./check C16 once to build the model):", str(e)[:300])
     return 0
